@@ -264,3 +264,5 @@ def run(ctx, rep):
         rep.check("C10.copy", "assembled buffer written with write_all", len(wa) == 1, loc_of(rb))
     from rules import iolib
     iolib.count_rules(ctx, rep, "C10")
+    from rules import C11 as _C11
+    compose(ctx, rep, "C11", "C10.blocks", r"^C11\.(gram|frame|len|size)$")
